@@ -201,6 +201,13 @@ def run(c, chk):
     from . import c15
     c15.trailing_trim(c, chk, 'R5.6')
 
+    # ---- R5.7: what the printer writes for a number ("%ld", "%f", true/false) is what the reader converts exactly ----
+    from . import c04
+    chk.rule('R5.7', 'the reader converts the printer\'s number and boolean texts exactly or refuses them (the rules of C04)')
+    sub = report.SubCheck(chk, 'R5.7', 'C04')
+    c04.run(c, sub)
+    sub.done('value conversion')
+
     # ---- R5.3 ---------------------------------------------------------------------------------
     cw = None
     for p in ex2.explore(opf):
